@@ -81,11 +81,22 @@ def walkKey : Op → String
   | .div => "walk_div" | .pow => "walk_pow" | .algebraicConst => "walk_algebraic_constant"
   | .bvToNatural => "walk_bv_tonatural"
 
+/-! ## numerals -/
+
+/-- decimal digits of a natural number (`str(n)`), most significant first; `fuel > n` is plenty -/
+def decDigits : Nat → Nat → List Char
+  | 0, _ => ['0']
+  | fuel + 1, n => if n < 10 then [Char.ofNat (48 + n)] else decDigits fuel (n / 10) ++ [Char.ofNat (48 + n % 10)]
+
+def natChars (n : Nat) : List Char := decDigits (n + 1) n
+def natStr (n : Nat) : String := String.ofList (natChars n)
+
+def natAtom (n : Nat) : Sexp := .atom (natStr n)
+
 /-! ## sorts: `as_smtlib(funstyle=False)` -/
 
-/-- a declared sort's name is written as is (`type_decl.name`, `self.name`/`self.basename`): the model is exact for
-names that are one token and marks the others -/
-def sortAtom (name : String) : Sexp := atomOfText name
+/-- a declared sort's name is written through `quote` (`as_smtlib`, `DECLARE_SORT`; after the repair F43) -/
+def sortAtom (name : String) : Sexp := quoteAtom name
 
 /-- split `a, b{c, d}, e` at the top-level `", "` -/
 def splitTop : List Char → Nat → List Char → List (List Char)
@@ -107,31 +118,37 @@ def nameToSexp : Nat → List Char → Sexp
   | 0, cs => sortAtom (String.ofList cs)
   | fuel + 1, cs =>
     match breakBrace cs with
-    | (base, none) => sortAtom (String.ofList base)
+    | (base, none) =>
+      if ["Int", "Real", "Bool", "String"].contains (String.ofList base) then .atom (String.ofList base)
+      else sortAtom (String.ofList base)
     | (base, some inner) =>
       let inner := inner.dropLast
       if base == "BV".toList then .list [.atom "_", .atom "BitVec", .atom (String.ofList inner)]
-      else .list (sortAtom (String.ofList base) :: (splitTop inner 0 []).map (nameToSexp fuel))
+      else
+        let hd := if base == "Array".toList then Sexp.atom "Array" else sortAtom (String.ofList base)
+        .list (hd :: (splitTop inner 0 []).map (nameToSexp fuel))
 
 def tySexp : Ty → Sexp
   | .bool => .atom "Bool" | .int => .atom "Int" | .real => .atom "Real" | .str => .atom "String"
-  | .bv w => .list [.atom "_", .atom "BitVec", .atom (toString w)]
+  | .bv w => .list [.atom "_", .atom "BitVec", natAtom w]
   | .array i e => .list [.atom "Array", tySexp i, tySexp e]
   | .custom n => nameToSexp n.length n.toList
 
 /-! ## constants -/
 
-def natAtom (n : Nat) : Sexp := .atom (toString n)
 
 def intSexp (sp : Spell) (n : Int) : Sexp :=
   if n < 0 then .list [.atom (sp "walk_int_constant"), natAtom (-n).toNat] else natAtom n.toNat
+
+/-- `str(n) + ".0"` -/
+def decAtom (n : Nat) : Sexp := .atom (String.ofList (natChars n ++ ['.', '0']))
 
 def realSexp (sp : Spell) (q : Rat) : Sexp :=
   let n := q.num.natAbs
   let d := q.den
   let body : Sexp :=
-    if d != 1 then .list [.atom (sp "walk_real_constant:1"), .atom (toString n ++ ".0"), .atom (toString d ++ ".0")]
-    else .atom (toString n ++ ".0")
+    if d != 1 then .list [.atom (sp "walk_real_constant:1"), decAtom n, decAtom d]
+    else decAtom n
   if q < 0 then .list [.atom (sp "walk_real_constant:0"), body] else body
 
 def binDigits : Nat → Nat → List Char
@@ -245,7 +262,7 @@ structure DSt where
   /-- `let` bindings written so far, most recent first -/
   binds : List (Sexp × Sexp)
 
-def defName (k : Nat) : String := ".def_" ++ toString k
+def defName (k : Nat) : String := String.ofList (".def_".toList ++ natChars k)
 
 /-- `_new_symbol`: skip the seeds whose name is taken -/
 def nextFree (names : List String) : Nat → Nat → Nat
@@ -272,9 +289,10 @@ def dagStep (sp : Spell) (names : List String) (sub : Term → Sexp) (st : DSt) 
         if isLet op then bindNew names st rest t e
         else { st with stack := rest, memo := (t, e) :: st.memo }
     else if op.isQuantifier then
-      -- the overridden `_push_with_children_to_stack` prints the quantifier at once (and again at every later
-      -- encounter of the same node), its body by a nested printer
-      bindNew names st rest t (nodeSexp sp false op p args (args.map sub))
+      -- the overridden `_push_with_children_to_stack` prints the quantifier at once (its body by a nested printer),
+      -- unless it is memoized already (a quantifier with several parents is on the stack once per parent)
+      if (st.memo.lookup t).isSome then { st with stack := rest }
+      else bindNew names st rest t (nodeSexp sp false op p args (args.map sub))
     else
       let kids := args.filter (fun a => (st.memo.lookup a).isNone)
       { st with stack := kids.reverse.map (fun a => (false, a)) ++ (true, t) :: rest }
@@ -318,7 +336,7 @@ def declsOfTy : Ty → List (String × Nat)
   | .custom n => declsOfName n.length n.toList
   | _ => []
 
-/-- the sorts `TypesOracle` sees: of symbols, of the signatures of applied functions, of bound variables -/
+/-- the sorts `TypesOracle` sees: of symbols, of the signatures of applied functions, of bound variables, of array values -/
 def Term.tys : Term → List Ty
   | .node op args p =>
     let sub := (args.map Term.tys).flatten
@@ -326,6 +344,10 @@ def Term.tys : Term → List Ty
     | .symbol, .sym s => [s.ret]
     | .function, .sym f => (f.ret :: f.params) ++ sub
     | .forall_, .qvars vs | .exists_, .qvars vs => vs.map (·.ret) ++ sub
+    | .arrayValue, .ty idx =>
+      (match args with
+       | d :: _ => (match d.typeOf with | some e => [Ty.array idx e] | none => [])
+       | [] => []) ++ sub
     | _, _ => sub
 
 /-- declared sorts of a formula, each type declaration once (after the repair of F34) -/
